@@ -74,6 +74,10 @@ func zzSetup() *zzEnv {
 	zzverif.OpenStore("rns")
 	zzverif.OpenStore("oracle")
 	zzStorageWF()
+	return zzBuild()
+}
+
+func zzBuild() *zzEnv {
 	bank := zzverif.NewBank("ujkl")
 	cdc := zzverif.Codec()
 	rk := rnskeeper.NewKeeper(cdc, zzverif.StoreKey("rns"), zzverif.Subspace("rns"), bank)
